@@ -10,8 +10,9 @@ from harness.core import hx, unhx, Violation, excname
 LEAN_TARGETS = ["PoorProofs.Props.C10"]
 AUDIT_IMPORTS = ["PoorProofs.Props.C10"]
 LEAN_FILES = ["PoorModel/Query.lean", "PoorProofs/Lemmas/Query.lean", "PoorProofs/Props/C10.lean", "PoorModel/Json.lean",
-              "PoorProofs/Lemmas/Json.lean", "PoorProofs/Props/JsonCodec.lean"]
+              "PoorProofs/Lemmas/Json.lean", "PoorProofs/Lemmas/JsonAny.lean", "PoorProofs/Props/JsonCodec.lean"]
 THEOREMS = ["Poor.Query.unquote_Enc", "Poor.Query.quotePlus_Enc", "Poor.Props.C10.C10_json_value",
+            "Poor.Props.C10.C10_json_any_spelling", "Poor.Json.loads_txt", "Poor.Json.Txt_dump", "Poor.Json.scanStr_enc",
             "Poor.Props.JsonCodec.loadBytes_dumpBytes",
             "Poor.Props.C10.C10_roundtrip_any_encoding",
             "Poor.Props.C10.C10_roundtrip",
